@@ -285,6 +285,11 @@ def wl_surj_wl(u):
             if cnt == nk and nk > 0: u.call("wl_verify", p_.b(1), b''.join(ko(P) for P in on), b''.join(ko(P) for P in off), nk, ko(W), cls="chained:wlsig")
             u.call("wl_verify_n", p_.b(1), ko(W), ko(W), 0, ko(W), cls="chained:wlsig")
             if nk >= 1: u.call("wl_verify_n", p_.b(1), b''.join(ko(P) for P in on), b''.join(ko(P) for P in off), max(nk - 1, 0), ko(W), cls="chained:wlsig")
+            # a parsed signature for FEWER keys than the verifier's lists hold (an older / smaller whitelist, or an edited count byte)
+            if cnt < nk and nk > 0: u.call("wl_verify", p_.b(1), b''.join(ko(P) for P in on), b''.join(ko(P) for P in off), nk, ko(W), cls="chained:wlsig:count_lt_list")
+            if cnt > 0:
+                more = [keys[i % (len(keys) - 1)] for i in range(cnt + 1 + it % 3)] if len(keys) > 1 else [W] * (cnt + 1)
+                if len(more) <= 255: u.call("wl_verify", p_.b(1), b''.join(ko(P) for P in more), b''.join(ko(P) for P in more), len(more), ko(W), cls="chained:wlsig:list_longer_than_count")
 
 def wl_bppp_halfagg(u):
     rng = u.rng; ctx = u.ctx
